@@ -571,7 +571,6 @@ class Parser:
                 ops.append(nodes.Operand("notin", self.parse_math1()))
             else:
                 break
-            lineno = self.stream.current.lineno
         if not ops:
             return expr
         return nodes.Compare(expr, ops, lineno=lineno)
